@@ -3,8 +3,6 @@ writer), canonical records of delivered trees / matrices, and the offline compar
 
 Nothing in this module decides what a document *means*; the templates only have to be
 valid input.  The oracle is agreement of the records that different reading routes deliver."""
-import random
-
 from .. import ref, gen, bridge
 
 # ----------------------------------------------------------------------------------------
@@ -134,6 +132,12 @@ def newick_body(rng, taxa, leaves, opt):
         ln = length_token(rng, pat)
         if is_root and rng.random() < 0.7:
             ln = None
+        if is_root and opt.get("no_final_semicolon"):
+            # the readers accept a missing terminator only right after an edge length.  Otherwise the statement is
+            # refused - or, if it is a bare label followed by at most ONE white-space character, silently dropped;
+            # with two it is an error.  A CR LF that a file read translates to LF flips that, i.e. this end-of-stream
+            # quirk of the tokenizer would show up as a string-vs-path difference that is not a matter of the routes.
+            ln = "1"
         if ln is not None:
             s += ws(rng, pw, nl) + ":" + ws(rng, pw, nl) + com() + ln + com()
         return s
